@@ -528,11 +528,17 @@ public:
     _accepting.store(true, std::memory_order_release);
     _lifecycleState.store(LifecycleState::Running, std::memory_order_release);
 
-    // Spawn initial threads if needed
+    // Spawn initial threads if needed. The pool is accepting again, so enqueue() may
+    // already be adding workers (up to _maxSize): test the size under the same lock,
+    // or the two together exceed the limit.
     std::size_t workerCount = _workerScaling ? _initialSize : _maxSize;
     for (std::size_t i = 0; i < workerCount; ++i)
     {
-      spawnWorker();
+      std::lock_guard<std::mutex> lock(_mutex);
+      if (_threads.size() < workerCount)
+      {
+        spawnWorkerLocked();
+      }
     }
 
     return LifecycleResult(true, LifecycleState::Running, "ThreadPool started");
